@@ -537,7 +537,7 @@ def translate(ctx, errors: list | None = None) -> tuple[str, dict]:
         raise TranslatorError("angles.pi not found")
     text = "\n".join([
         "(* GENERATED by props/C20/tr_gates.py from the quantum standard library -- do not edit *)",
-        "From Coq Require Import List String Floats.", "From V.C20 Require Import Model.",
+        "From Coq Require Import List String PrimFloat.", "From V.C20 Require Import Model.",
         "Import ListNotations.", "Open Scope string_scope.", "",
         "Definition gen_fns : list fn := [", "  " + ";\n  ".join(fns_coq), "].", "",
         "Definition gen_compilers : list compiler := [", "  " + ";\n  ".join(compilers), "].", "",
